@@ -15,6 +15,7 @@ import (
 
 	"verifsim/core"
 	"verifsim/gen"
+	"verifsim/simschema"
 )
 
 // C17 — schedsim: caller goroutines over the package's process-wide tables and over shared ASTs,
@@ -47,6 +48,10 @@ type C17Plan struct {
 	EndPick  []int                   `json:"end_pick"` // successor choice when a task finishes
 	Order    verifhook.OrderPolicy   `json:"order"`
 	Hot      bool                    `json:"hot,omitempty"` // one hot operation on (almost) every task
+	// SharedMapper: all tasks use ONE schema service (as a server's meta client is shared), which
+	// answers from maps it keeps; its schema is SharedSchema
+	SharedMapper bool       `json:"shared_mapper,omitempty"`
+	SharedSchema gen.Schema `json:"shared_schema,omitempty"`
 }
 
 type C17 struct{}
@@ -63,7 +68,7 @@ func (C17) Meta() core.Meta {
 		},
 		Real:       []string{"influxql (instrumented copy of the working tree, built with -race)", "ThreadSanitizer runtime as the data-race judge", "regexp, strings.Replacer, fmt, time zone cache (race-instrumented std, atomic from the scheduler's point of view)"},
 		Stub:       []string{"Go scheduler / goroutine interleaving (plan-driven baton over real goroutines)", "Go map iteration order", "meta store and valuers (per-task stubs; callbacks are yield points)"},
-		ProbeNames: []string{"switch-inside-op", "switch-in-callback", "shared-op", "independent-op", "all-parse", "all-shared", "hot-op", "tasks>=4", "preempt>=4", "twin-compared"},
+		ProbeNames: []string{"shared-mapper", "switch-inside-op", "switch-in-callback", "shared-op", "independent-op", "all-parse", "all-shared", "hot-op", "tasks>=4", "preempt>=4", "twin-compared"},
 		FaultNames: []string{"preemption", "mapper-error"},
 	}
 }
@@ -76,7 +81,7 @@ func (C17) Runs(tier string) uint64 {
 }
 
 var sharedOps = []string{"String", "Clone", "CloneExpr", "WalkFunc", "WalkNil", "Eval", "EvalBool", "EvalFields", "Reduce", "ReduceExpr", "RewriteFields", "ConditionExpr", "EvalType", "TypeValuerEval", "FieldDimensions", "ColumnNames", "FieldExprByName", "Names", "AliasNames", "Measurements", "RequiredPrivileges", "HasWildcard", "ExprNames", "HasTimeExpr", "TimeAscending", "ContainsVarRef", "IsSelector", "BinaryExprName", "Normalize"}
-var indepKinds = []string{"parse-query", "parse-stmt", "parse-expr", "print-own", "quote-string", "quote-ident", "needs-quotes", "format-duration", "parse-duration", "sanitize", "lookup", "language-clone"}
+var indepKinds = []string{"parse-query", "parse-stmt", "parse-expr", "print-own", "quote-string", "quote-ident", "needs-quotes", "format-duration", "parse-duration", "sanitize", "lookup", "language-clone", "own-settimerange", "own-rewrite"}
 
 func genTaskOp(r *core.Rand, o gen.Opts, nShared int, pool int, hot *TaskOp) TaskOp {
 	if hot != nil && r.Chance(3, 4) {
@@ -100,6 +105,10 @@ func genTaskOp(r *core.Rand, o gen.Opts, nShared int, pool int, hot *TaskOp) Tas
 		t.Text = core.RawStr(gen.Statement(r, o))
 	case "parse-expr":
 		t.Text = core.RawStr(gen.Cond(r, o, 0))
+	case "own-settimerange", "own-rewrite":
+		// in-place work on a statement no other task can see
+		t.Text = core.RawStr(gen.Select(r, o, 0))
+		t.N = int64(r.Intn(1000))
 	case "quote-string":
 		t.Text = core.RawStr(r.Pick([]string{"a", "it's", "a\\b", "x\ny", "", "select"}))
 	case "quote-ident", "needs-quotes", "lookup":
@@ -145,6 +154,10 @@ func (C17) NewPlan(r *core.Rand, tier string, i uint64) interface{} {
 		}
 		p.Tasks = append(p.Tasks, tp)
 		p.EndPick = append(p.EndPick, r.Intn(8))
+	}
+	if r.Chance(1, 4) {
+		p.SharedMapper = true
+		p.SharedSchema = gen.GenSchema(r)
 	}
 	p.First = r.Intn(nTasks)
 	for k := r.Weighted([]int{1, 2, 3, 3, 3, 2, 2, 1, 1, 1, 1, 1, 1}); k > 0; k-- {
@@ -218,6 +231,33 @@ func runTaskOp(op *TaskOp, ctx *opCtx, shared []*influxql.SelectStatement) strin
 	case "language-clone":
 		c := influxql.Language.Clone()
 		return fmt.Sprint(c != nil)
+	case "own-settimerange":
+		st, err := influxql.ParseStatement(string(op.Text))
+		if err != nil {
+			return "error: " + err.Error()
+		}
+		sel, ok := st.(*influxql.SelectStatement)
+		if !ok {
+			return ""
+		}
+		a, b := windowFor(int(op.N))
+		e1 := sel.SetTimeRange(a, b)
+		a2, b2 := windowFor(int(op.N) + 7)
+		e2 := sel.SetTimeRange(a2, b2)
+		return fmt.Sprint(e1, e2, " ", sel.String())
+	case "own-rewrite":
+		st, err := influxql.ParseStatement(string(op.Text))
+		if err != nil {
+			return "error: " + err.Error()
+		}
+		sel, ok := st.(*influxql.SelectStatement)
+		if !ok {
+			return ""
+		}
+		sel.RewriteRegexConditions()
+		sel.RewriteDistinct()
+		sel.RewriteTimeFields()
+		return sel.String()
 	}
 	return ""
 }
@@ -359,9 +399,17 @@ func (C17) Exec(pi interface{}) *core.RunResult {
 	sort.Slice(pre, func(a, b int) bool { return pre[a].Step < pre[b].Step })
 	conc := make([][]opResult, n)
 	ctxs := make([]*opCtx, n)
+	var frozen *simschema.FrozenMapper
+	if p.SharedMapper {
+		frozen = simschema.NewFrozenMapper(p.SharedSchema, true)
+		res.Probe("shared-mapper")
+	}
 	for t := 0; t < n; t++ {
 		conc[t] = make([]opResult, len(p.Tasks[t].Ops))
 		ctxs[t] = newOpCtx(&p.Tasks[t].Env)
+		if frozen != nil {
+			ctxs[t].fm = frozen
+		}
 	}
 	readNewRaceLog() // drop anything older
 	racesBefore := verifhook.RaceErrors()
@@ -407,6 +455,9 @@ func (C17) Exec(pi interface{}) *core.RunResult {
 	for t := 0; t < n; t++ {
 		twin[t] = make([]opResult, len(p.Tasks[t].Ops))
 		ctx := newOpCtx(&p.Tasks[t].Env)
+		if p.SharedMapper {
+			ctx.fm = simschema.NewFrozenMapper(p.SharedSchema, true) // "alone": its own, untouched service
+		}
 		for k := range p.Tasks[t].Ops {
 			sh := parseShared(p.Shared)
 			op := &p.Tasks[t].Ops[k]
@@ -457,6 +508,11 @@ func (C17) Exec(pi interface{}) *core.RunResult {
 				continue
 			}
 			res.Violate(rp.sig, fmt.Sprintf("data race reported by the Go race detector (tasks are causally unordered; execution was serial and is replayable)\n%s\n%s", strings.TrimSpace(clipRace(rp.text)), plan()))
+		}
+	}
+	if frozen != nil {
+		if d := frozen.Intact(); d != "" {
+			res.Violate("shared-service-maps-modified", "the schema service shared by the tasks answers from maps it keeps; after the run they no longer match its schema: "+d+"\n"+plan())
 		}
 	}
 	// oracle 2/3: every result equals the result of the same call made alone
